@@ -645,7 +645,13 @@ class ET(Inverter):
     async def read_sensor(self, sensor_id: str) -> Any:
         sensor: Sensor = self._get_sensor(sensor_id)
         if sensor:
-            return await self._read_sensor(sensor)
+            if sensor.size_ > 0:
+                try:
+                    return await self._read_sensor(sensor)
+                except NotImplementedError:
+                    pass
+            # calculated and multi-register sensors can be decoded from the complete runtime data only
+            return (await self.read_runtime_data()).get(sensor_id)
         if sensor_id.startswith("modbus"):
             response = await self._read_from_socket(self._read_command(int(sensor_id[7:]), 1))
             return int.from_bytes(response.read(2), byteorder="big", signed=True)
